@@ -19,7 +19,7 @@ CFG = dict(
           "lock-step to the real code (client: every run of this check, all orders of internal rules; server: ./check SV).",
     props="Props/C07.v",
     theorems=["C07_caller_unblocked", "C07_after_done", "C07_reset_once", "C07_reset_owner", "C07_status_reset", "C07_reset_cancels",
-              "C07_handler_unblocks", "C07_no_orphan_partial", "C07_recv_strict", "C07_last_reset_cancels", "C07_sys", "C07_sys_quiescent"],
+              "C07_handler_unblocks", "C07_no_orphan_partial", "C07_recv_strict", "C07_last_reset_cancels", "C07_sys", "C07_sys_quiescent", "C07_server_reset_cancels"],
     imports=["Model.Client", "Check.ClientC", "Model.Protocol", "Check.CwC", "Check.C07c"],
     case_type="cwcase", find_bad_from="find_bad_from", go_tags="cw",
     rigs=[dict(test="TestC07", timeout_quick=600, timeout_thorough=2400)],
